@@ -1,9 +1,11 @@
 #!/bin/sh
 # tools/try_all_seeds.sh : apply every seeded change in turn to /repo, run the quick check of its property, undo; one line per seed.
 # (regression test of the checks themselves: every seed must still be reported)
+# optional arguments: property ids to restrict the run to (e.g. tools/try_all_seeds.sh C01 C10)
 cd /verif
 for d in seeded/*/; do
   n=$(basename $d); id=$(echo $n | cut -c1-3)
+  if [ $# -gt 0 ]; then case " $* " in *" $id "*) ;; *) continue;; esac; fi
   [ -f $d/patch.diff ] || continue
   out=$(tools/try_seed.sh /verif/$d/patch.diff $id 2>&1)
   if echo "$out" | grep -q '^VIOLATION'; then echo "$n detected"; else echo "$n NOT DETECTED: $(echo "$out" | tail -1)"; fi
